@@ -345,7 +345,8 @@ def slaughter(index, rep):
         n += 1
         res = it.to_rat(res)
         if res.is_zero():
-            ok = any(k.endswith("> 0") and not v for k, v in dec.items() if "remaining_hours" in k)
+            from .symx import leaf_implies
+            ok = leaf_implies(it, dec, rem, "<=")     # this path established that no hours remain
             rep.check(ok, rule, "rate = 0 only when no hours remain", "the slaughter rate is zero on a path where hours remain", loc=loc(ANIM, fn))
             continue
         mins = [a for a in res.atoms() if isinstance(a, tuple) and a[0] == "MIN"]
@@ -375,10 +376,12 @@ def slaughter(index, rep):
         ov.leaf("rate computed from the class's remaining hours", okr,
                 "the slaughter rate is not computed from the remaining hours the caller handed in", dec)
     ov.done()
-    asserts = [norm_src(a_.test).replace(" ", "") for a_ in walk_no_nested(cc) if isinstance(a_, ast.Assert)]
+    from .core import bounds_in
     rets = [r for r in cc.body if isinstance(r, ast.Return)]
     rname = norm_src(rets[-1].value) if rets else "?"
-    rep.check(any(a_.startswith(f"{rname}>=0") or a_.startswith(f"{rname}>=-") for a_ in asserts), rule, "hours left asserted >= 0",
+    lower = [b for a_ in walk_no_nested(cc) if isinstance(a_, ast.Assert) for b in bounds_in(a_.test)
+             if b[0] == "lower" and norm_src(b[1]) == rname and -1e-3 <= b[2] <= 0]
+    rep.check(bool(lower), rule, "hours left asserted >= 0",
               "the remaining labour hours are no longer asserted to stay non-negative", loc=loc(ANIM, cc))
     hb = index.func(ANIM, "calculate_net_slaughter_hours_by_size")
     t = norm_src(hb)
